@@ -14,7 +14,7 @@ LEVEL = "exploration"
 RULE = (
     "every durable status row (SQL trigger AFTER UPDATE OF status on workflow / stage / task tables; rolled-back rows "
     "never appear) of: delivery-engine runs over the full workflow family with random order, withheld acks, injected "
-    "cancels, signals, duplicate StartStage, recovery sweeps and operator RestartStage; jump-heavy loops; crash-engine "
+    "cancels, signals, duplicate StartStage, recovery sweeps, operator RestartStage and pause / unpause; jump-heavy loops; crash-engine "
     "runs (every 3rd commit snapshot resumed with recovery); and - via the interleaving engine - racing workers. Oracle: "
     "(old -> new) is in VALID_TRANSITIONS and old is not a completed status, unless the row sits in a commit group that "
     "carries a JumpToStage / RestartStage processed mark (the explicit re-arm). Non-trivial = a status row; distinct = "
@@ -45,8 +45,15 @@ def _delivery(case: dict) -> dict:
     ref = delivery_run(spec, max_steps=1500)
     for j in range(case["nsched"]):
         inj = []
-        m = j % 5
-        if m == 1:
+        m = j % 6
+        if m == 5:
+            # operator pause, then unpause (ResumeStage per parked stage), possibly twice
+            ps = rng.randrange(2, max(3, ref.steps))
+            inj.append({"at": ps, "do": "pause"})
+            inj.append({"at": ps + rng.randrange(1, 15), "do": "unpause"})
+            if rng.random() < 0.5:
+                inj.append({"at": ps + rng.randrange(15, 40), "do": "unpause"})
+        elif m == 1:
             inj.append({"at": rng.randrange(1, max(2, ref.steps)), "do": "cancel"})
         elif m == 2:
             inj.append({"at": ref.steps + rng.randrange(0, 40), "do": "restart_stage", "ref": refs[0] if spec["name"] == "restart_forward_jump" else rng.choice(refs)})
